@@ -51,7 +51,8 @@ func template(typ string) messages.Builder {
 var allTypes = []string{"A", "0", "1", "2", "3", "4", "5", "V", "W", "X", "Y"}
 
 func word(t *Tape) string {
-	return []string{"BTC/USD", "ETH/GBP", "x", "EUR/USD", "a=b", "10=1", "id-" + itoa(t.Draw(1000)), "Z9", "long-" + itoa(t.Draw(1<<20))}[t.Draw(9)]
+	return []string{"BTC/USD", "ETH/GBP", "x", "EUR/USD", "a=b", "10=1", "id-" + itoa(t.Draw(1000)), "Z9", "long-" + itoa(t.Draw(1<<20)),
+		"caf\xe9", "\xc3\xa9t\xc3\xa9", "\xff\xfe\x80", "z\xe2\x82\xacuro"}[t.Draw(13)] // incl. Latin-1 and UTF-8 bytes
 }
 
 // baseMessage serialises a valid message of a drawn type with the library's own builders.
